@@ -39,6 +39,7 @@ def main():
     ap.add_argument("--tier", default="quick")
     ap.add_argument("--keep", action="store_true")
     ap.add_argument("--name", default=None)
+    ap.add_argument("--quick-only", action="store_true")
     a = ap.parse_args()
     prop = a.prop.upper()
     src = os.path.abspath(a.dir)
@@ -69,7 +70,7 @@ def main():
         report["demo_output_with_change"] = (d1.stdout + d1.stderr)[-600:]
         valid = report["demo_without_change"] == 0 and report["demo_with_change"] != 0 and "133 passed" in report["baseline_with_change"] and "failed" not in report["baseline_with_change"]
         report["valid_seed"] = valid
-        tiers = [a.tier] if a.tier == "thorough" else ["quick", "thorough"]
+        tiers = [a.tier] if a.tier == "thorough" else (["quick"] if a.quick_only else ["quick", "thorough"])
         caught = None
         for tier in tiers:
             t0 = time.time()
